@@ -150,8 +150,10 @@ def census(ctx, post, table):
         ctx.count(table, '%s/%s' % (net.op, '1' if all(x == 1 for x in widths) else 'wide'))
 
 
-def part_a(ctx):
+def part_a(ctx, only=None):
     N = 4 if ctx.tier == 'quick' else 6
+    if only:
+        N = max(N, max(only))
     exprs = ['gate_table %d %d' % (OPCODE[o], n) for n in range(1, N + 1) for o in OPS]
     exprs += ['select_table %d' % n for n in range(1, N + 1)]
     try:
@@ -170,6 +172,8 @@ def part_a(ctx):
             model[('sel', n)] = res[k]
             k += 1
     for wa, wb in itertools.product(range(1, N + 1), repeat=2):
+        if only and (wa, wb) != tuple(only):
+            continue
         merge = (wa + wb) % 2 == 0
         orig, outs, n = build_ops_design(wa, wb)
         orig_inputs = sorted(orig.wirevector_subset(pyrtl.Input), key=lambda w: w.name)
@@ -225,6 +229,97 @@ def part_a(ctx):
                                 reported.add((nm, 'model'))
                                 ctx.model_mismatch('Coq basic_select and the real synthesized select disagree at '
                                                    'width %d: s=%d x=%d y=%d model=%d real=%d' % (n, s, x, y, mv, got), rep)
+
+
+# ----------------------------------------------------------------------------- (a')
+
+def part_a_truncated(ctx):
+    """hand-built nets whose destination is NARROWER than the natural result (legal for
+    sanity_check_net, never produced by the operator API): exercises `dest <<= _basic_xxx(...)`
+    truncation in _replace_op and the per-bit loops of _decompose bounded by len(dest)."""
+    N = 3 if ctx.tier == 'quick' else 4
+    exprs, cases = [], []
+    for n in range(1, N + 1):
+        pyrtl.reset_working_block()
+        block = pyrtl.working_block()
+        a = pyrtl.Input(n, 'a')
+        b = pyrtl.Input(n, 'b')
+        s = pyrtl.Input(1, 's')
+        outs = []
+
+        def raw(op, args, wd, tag, param=None):
+            t = pyrtl.WireVector(wd, 't_%s_%d' % (tag, wd))
+            block.add_net(pyrtl.LogicNet(op, param, tuple(args), (t,)))
+            o = pyrtl.Output(wd, 'o_%s_%d' % (tag, wd))
+            o <<= t
+            outs.append((o, tag, wd))
+
+        for wd in range(1, n + 2):
+            raw('+', (a, b), wd, 'add')
+            raw('-', (a, b), wd, 'sub')
+        for wd in range(1, 2 * n + 1):
+            raw('*', (a, b), wd, 'mul')
+        for wd in range(1, n + 1):
+            raw('&', (a, b), wd, 'and')
+            raw('|', (a, b), wd, 'or')
+            raw('^', (a, b), wd, 'xor')
+            raw('n', (a, b), wd, 'nand')
+            raw('~', (a,), wd, 'not')
+            raw('w', (a,), wd, 'buf')
+            raw('x', (s, a, b), wd, 'mux')
+            raw('s', (a,), wd, 'selrev', tuple(reversed(range(n))))
+        for wd in range(1, 2 * n + 1):
+            raw('c', (a, b), wd, 'cat')
+        merge = n % 2 == 1
+        try:
+            post = pyrtl.synthesize(update_working_block=False, merge_io_vectors=merge, block=block)
+            sim = pyrtl.Simulation(tracer=pyrtl.SimulationTrace(block=post), block=post)
+        except (pyrtl.PyrtlError, pyrtl.PyrtlInternalError) as e:
+            ctx.spec_violation('synthesize:raises', 'synthesize raised on hand-built truncated nets (n=%d): %s' % (n, e),
+                               {'part': 'a-truncated', 'n': n})
+            continue
+        orig_inputs = [a, b, s]
+        inputs, got_rows = [], []
+        for x in range(1 << n):
+            for y in range(1 << n):
+                for sv in (0, 1):
+                    vals = {'a': x, 'b': y, 's': sv}
+                    inputs.append(vals)
+                    sim.step(step_inputs(post, orig_inputs, vals, merge))
+                    got_rows.append([read_output(sim, post, o, merge) for o, _, _ in outs])
+        dump = nlx.Dump(block)
+        outids = nlx.zlist([dump.wid[o] for o, _, _ in outs])
+        base = '%s 0 [] [] %s' % (dump.coq(), dump.inputs(inputs))
+        exprs.append('spec_case %s []' % base)
+        exprs.append('synth_case %s %s' % (base, outids))
+        cases.append(dict(n=n, outs=outs, inputs=inputs, got=got_rows, names=dump.names(), merge=merge))
+    try:
+        res = ctx.coq_eval(exprs, IMPORTS_SPEC + '\n' + IMPORTS_SYNTH, tag='c03trunc', shard=1, jobs=8)
+    except Exception as e:
+        ctx.model_mismatch('truncated-destination cases could not be evaluated in Coq: %s' % str(e)[-600:], {})
+        return
+    for k, c in enumerate(cases):
+        spec, model = res[2 * k], res[2 * k + 1]
+        cols = [c['names'].index(o.name) for o, _, _ in c['outs']]
+        if spec[0][0] != 1 or model[0][0] != 1:
+            ctx.model_mismatch('wfb/synth_okb false on the hand-built truncated design n=%d' % c['n'], {})
+        seen = set()
+        for t, vals in enumerate(c['inputs']):
+            ctx.case(('a-trunc', c['n'], vals['a'], vals['b'], vals['s']), nontrivial=True)
+            for j, (o, tag, wd) in enumerate(c['outs']):
+                got, exp, mod = c['got'][t][j], spec[2 + t][cols[j]], model[1 + t][j]
+                rep = {'part': 'a-truncated', 'op': tag, 'n': c['n'], 'dest_width': wd, 'inputs': vals,
+                       'expected': exp, 'got': got, 'merge_io_vectors': c['merge']}
+                if got != exp and (tag, wd, 's') not in seen:
+                    seen.add((tag, wd, 's'))
+                    ctx.spec_violation('synthesize:truncated-dest:op=%s' % tag,
+                                       'synthesized %s net with %d-bit destination (args %d bits): %s -> %d, Sem says %d' % (
+                                           tag, wd, c['n'], vals, got, exp), rep)
+                if got != mod and (tag, wd, 'm') not in seen:
+                    seen.add((tag, wd, 'm'))
+                    ctx.model_mismatch('Coq model of synthesize and the real block disagree on a %s net with %d-bit '
+                                       'destination (args %d bits): %s model=%d real=%d' % (tag, wd, c['n'], vals, mod, got), rep)
+        ctx.count('truncated_dest_outputs', 'n=%d' % c['n'], len(c['outs']))
 
 
 # ----------------------------------------------------------------------------- (b)
@@ -421,12 +516,12 @@ def build_case(ctx, i):
     return d, regmap, memmap, inputs
 
 
-def part_b(ctx):
+def part_b(ctx, only=None):
     n = 30 if ctx.tier == 'quick' else 400
     spec_exprs, spec_cases = [], []
     shape_exprs, shape_cases = [], []
     model_exprs, model_cases = [], []
-    for i in range(n):
+    for i in (only if only is not None else range(n)):
         d, regmap, memmap, inputs = build_case(ctx, i)
         block = d.block
         outnames = [o.name for o in d.outputs]
@@ -640,11 +735,25 @@ def classify_mismatch(ctx, d, block, merge, regmap, memmap, inputs, t_orig, t_po
 
 def run(ctx):
     part_a(ctx)
+    part_a_truncated(ctx)
     part_b(ctx)
     pyrtl.reset_working_block()
 
 
 def replay(ctx, data):
-    print(data.get('what'))
-    print(data.get('replay'))
-    run(ctx)
+    """re-run exactly the failing case of a replay file: the (wa, wb) op design, the
+    hand-built truncated design, or design number i of the recorded seed"""
+    rep = data.get('replay') or {}
+    print('replaying:', data.get('signature'), '|', data.get('what'))
+    part = rep.get('part')
+    if part == 'a':
+        part_a(ctx, only=(rep['wa'], rep['wb']))
+    elif part == 'a-truncated':
+        part_a_truncated(ctx)
+    elif part == 'b':
+        ctx.seed = rep.get('seed', ctx.seed)
+        ctx.tier = rep.get('tier', ctx.tier)
+        part_b(ctx, only=[rep['design']])
+    else:
+        run(ctx)
+    pyrtl.reset_working_block()
